@@ -444,6 +444,31 @@ theorem lf_spec (s : St) (t : Nat) (r : Ret) :
   unfold lfK lfPc leaveFn; cases hwl : s.cfg.wl <;> simp only [upd_same] <;>
     first | (exact afterUnlock_okNotes_eq { s with holder := none } t r) | (unfold ExitSpec; simp)
 
+/-- with a waiting reader mode a successful call always goes through `fn_wake` -/
+theorem auPc_ok_wake (s : St) (t : Nat) (h : s.cfg.rm ≠ .busy) : auPc s t .ok = .wWake := by
+  unfold auPc afterUnlock; cases hrm : s.cfg.rm <;> simp_all
+
+theorem lfPc_ok_pub (s : St) (t : Nat) (h : s.cfg.rm ≠ .busy) : published (lfPc s t .ok) = true := by
+  unfold lfPc leaveFn
+  cases hwl : s.cfg.wl <;> simp only [upd_same, published]
+  have := auPc_ok_wake { s with holder := none } t h
+  unfold auPc at this; rw [this]
+
+theorem firstBlocked_none (pc : Nat → Pc) :
+    ∀ n i, firstBlocked pc n i = none → ∀ t, i ≤ t → t < i + n → pc t ≠ .wBlocked := by
+  intro n
+  induction n with
+  | zero => intro i _ t h1 h2; omega
+  | succ n ih =>
+    intro i h t h1 h2
+    simp only [firstBlocked] at h
+    split at h
+    · cases h
+    next hne =>
+      rcases Nat.eq_or_lt_of_le h1 with e | hlt
+      · rw [← e]; exact hne
+      · exact ih (i + 1) h t hlt (by omega)
+
 theorem readReturned_k_other (s : St) (t t' : Nat) (d : Option Msg) (h : t' ≠ t) :
     (readReturned s t d).1.k t' = s.k t' := by
   unfold readReturned; cases d <;> simp [upd, h]
